@@ -40,6 +40,7 @@ func ParseOptions(s string) Options {
 			o.DepHeavy = true
 		case "simple":
 			o.Simple = true
+			o.NoOddities = true
 		case "unicode":
 			o.Unicode = true
 		case "clean":
